@@ -367,7 +367,21 @@ def T15():
     )
 
 
-ALL = {f.__name__: f for f in (T01, T02, T03, T04, T05, T05s, T06, T07, T08, T09, T10, T11, T12, T13, T13b, T14, T15)}
+def T16():
+    """forward references: options whose conditions refer to options defined later"""
+    return Tree(
+        "T16",
+        [
+            Cfg("X", I, "x", depends=["EN"], defaults=[("5", None)]),
+            Cfg("XS", S, "xs", prompt_if="EN", defaults=[('"a"', "MODE2"), ('"b"', None)]),
+            Cfg("EN", B, "en", defaults=[("y", None)]),
+            Cfg("MODE2", B, "mode2", depends=["EN"]),
+            Cfg("LATE", I, "late", defaults=[("X", "EN"), ("0", None)], ranges=[("0", "9", "MODE2")]),
+        ],
+    )
+
+
+ALL = {f.__name__: f for f in (T16, T01, T02, T03, T04, T05, T05s, T06, T07, T08, T09, T10, T11, T12, T13, T13b, T14, T15)}
 
 
 def get(tid):
